@@ -22,6 +22,11 @@
 (*        the 72nd byte when verifying (it refuses such passwords when     *)
 (*        hashing), so a longer password with the same first 72 bytes is   *)
 (*        accepted.                                                        *)
+(*   "RegexpAltAnchor" table/regexp.go:Init: full_match puts "^" before and *)
+(*        "$" behind the pattern without grouping it, so with an alternation*)
+(*        at top level (a|b -> ^a|b$) a name that only starts with a (ends  *)
+(*        with b) is covered by the map: "ub.evil.example" (spelling        *)
+(*        ux/suf_b) is looked up as account ua under the map r_alt.         *)
 (***************************************************************************)
 EXTENDS AuthObs, TLC, SequencesExt, Json
 
@@ -38,11 +43,18 @@ CONSTANTS Variants,     \* spellings of ua / ub explored ("plain", "upper", "nfd
           Tbls,         \* table module behind pass_table: "mem" (in-memory), "sql" (table.sql_table, sqlite3)
           Defers,       \* defer_sender_reject settings of the submission endpoint
           MailFroms,    \* reverse-paths tried in MAIL: "addr", "null" (<>), "nullparam" (<> BODY=8BITMIME), "upper", "utf8"
+          Doms,         \* domain of the e-mail shaped user ub: "ascii", "idn".  A data dimension of the
+                        \* harness (which strings stand for ub and the maps over it); the design does not
+                        \* depend on it except that the EmailVariants exist for an IDN only
+          EmailVariants,\* spellings of ub that only an e-mail aware normalisation equates with it
+                        \* ("alabel": domain as A-labels, "alabelup": that in upper case); offered to the
+                        \* SASL observers when auth_map_normalize is "auto" (precis_casefold treats the name
+                        \* as an opaque string and promises nothing; pass_table itself does the same)
           MaxOps,       \* longest history (Gen only)
           Devs,         \* enabled deviations
           Gen           \* TRUE: keep the history and print complete behaviours
 
-VARIABLES cfg,      \* [map, norm, tbl, defer, len]  fixed per behaviour
+VARIABLES cfg,      \* [map, norm, tbl, defer, dom, len]  fixed per behaviour
           tbl,      \* the credential table: Users -> [pw, sch] or Absent
           sess,     \* the SMTP connection: [open, authed (the session has an identity), did (go-smtp's flag)]
           obs,      \* observation state (AuthObs)
@@ -55,6 +67,12 @@ View == <<cfg, tbl, sess, obs, phase>>
 
 MutSp == [u : Users, v : Variants] \cup [u : {"bad"}, v : BadVariants]
 AllSp == MutSp \cup [u : {"ux"}, v : UxVariants]
+SaslSp == AllSp \cup [u : {"ub"}, v : EmailVariants]     \* user names offered to the SASL front-end
+EmailOk(sp) ==
+  /\ sp.v \in {"alabel", "alabelup"} => (sp.u = "ub" /\ cfg.norm = "auto" /\ cfg.dom = "idn")
+  \* spellings of "ux" of the shape <ua>@<another domain> are nobody's account only where the map does not
+  \* drop the domain: table.email_localpart(_optional) takes them to ua, as documented - not offered there
+  /\ (sp.u = "ux" /\ sp.v \in {"suf_b", "sharp", "zwnj"}) => cfg.map \notin {"b_local", "b_localopt"}
 Azs   == {"empty", "same", "variant", "other", "fold"}
 Mechs == {"PLAIN", "LOGIN"}
 
@@ -74,14 +92,15 @@ InitWith(c) ==
   /\ obs = ObsInit
   /\ pending = "none" /\ hist = <<>> /\ phase = "run"
 
-Init == \E m \in Maps, nm \in Norms, tb \in Tbls, df \in Defers, n \in (IF Gen THEN 1..MaxOps ELSE {0}) :
-          InitWith([map |-> m, norm |-> nm, tbl |-> tb, defer |-> df, len |-> n])
+Init == \E m \in Maps, nm \in Norms, tb \in Tbls, df \in Defers, dm \in Doms, n \in (IF Gen THEN 1..MaxOps ELSE {0}) :
+          InitWith([map |-> m, norm |-> nm, tbl |-> tb, defer |-> df, dom |-> dm, len |-> n])
 
 (* ---- what a SASL exchange answers, under the deviations D ------------- *)
 Outcome(mech, sp, pw, az, D) ==
   LET n    == Norm(sp)
       f    == MapF(cfg.map)
-      t1   == IF n = "invalid" THEN "none" ELSE Ap(f, n)
+      alt  == "RegexpAltAnchor" \in D /\ cfg.map = "r_alt" /\ sp = [u |-> "ux", v |-> "suf_b"]
+      t1   == IF n = "invalid" THEN "none" ELSE IF alt THEN "ua" ELSE Ap(f, n)
       twice == mech = "LOGIN" /\ "LoginMapTwice" \in D
       t    == IF twice THEN Ap(f, t1) ELSE t1
       pwok == /\ t \in Users /\ tbl[t] # Absent
@@ -131,6 +150,7 @@ Delete(sp, fail) ==
 AuthOne(mech, sp, pw, az, D) ==
   /\ phase = "run" /\ Turn(IF mech = "PLAIN" THEN "AuthPlain" ELSE "AuthLogin")
   /\ mech = "LOGIN" => az = "empty"
+  /\ EmailOk(sp)
   /\ LET r == Outcome(mech, sp, pw, az, D) IN obs' = ObsAuth(obs, cfg.map, sp, pw, az, r.ok, r.id)
   /\ hist' = H([a |-> "Auth", mech |-> mech, sp |-> sp, pw |-> pw, az |-> az])
   /\ pending' = "none" /\ UNCHANGED <<cfg, tbl, sess, phase>>
@@ -150,7 +170,7 @@ AuthDirect(sp, pw, D) ==
   /\ pending' = "none" /\ UNCHANGED <<cfg, tbl, sess, phase>>
 
 AuthPair(sp, pw, D) ==
-  /\ phase = "run" /\ Turn("AuthPair")
+  /\ phase = "run" /\ Turn("AuthPair") /\ EmailOk(sp)
   /\ LET p == Outcome("PLAIN", sp, pw, "empty", D)
          g == Outcome("LOGIN", sp, pw, "empty", D)
      IN obs' = ObsPair(obs, cfg.map, sp, pw, p.ok, p.id, g.ok, g.id)
@@ -178,7 +198,7 @@ SAuthRes(mech, sp, pw, D) ==
   IF sess.did THEN "already" ELSE IF Outcome(mech, sp, pw, "empty", D).ok THEN "ok" ELSE "fail"
 
 SAuth(mech, sp, pw, D) ==
-  /\ phase = "run" /\ Turn("SAuth") /\ sess.open
+  /\ phase = "run" /\ Turn("SAuth") /\ sess.open /\ EmailOk(sp)
   /\ LET res == SAuthRes(mech, sp, pw, D) IN
        /\ sess' = IF res = "ok" THEN [sess EXCEPT !.authed = TRUE, !.did = TRUE] ELSE sess
        /\ obs' = ObsSAuth(obs, cfg.map, sp, pw, res)
@@ -234,6 +254,11 @@ Finish ==
    injected backend failures are rare, and every authentication supplies a password
    that some earlier operation tried to set (current, stale, or another account's). *)
 SetBefore(i) == {hist[j].pw : j \in {k \in 1..(i - 1) : hist[k].a \in {"Create", "SetPw"}}}
+(* password identifiers whose octet strings a "helpful" preparation would make equal (NFC,
+   non-ASCII spaces, case, width, trimming); for the design they are simply different passwords *)
+PwTwinPairs == {<<"nfc", "nfd">>, <<"nbsp", "sp">>, <<"a", "aup">>, <<"a", "atr">>, <<"b", "bwide">>,
+                <<"jamo", "jamoc">>}
+PwTwins(pw) == {p[2] : p \in {q \in PwTwinPairs : q[1] = pw}} \cup {p[1] : p \in {q \in PwTwinPairs : q[2] = pw}}
 Steer ==
   /\ Len(hist) >= 1 =>
         /\ hist[1].a \in {"Create", "SetPw"} /\ ~hist[1].fail /\ hist[1].sp.u \in Users
@@ -243,16 +268,17 @@ Steer ==
         /\ hist[i].a \in {"Auth", "AuthPair", "AuthDirect", "SAuth"} =>
               \/ hist[i].pw \in SetBefore(i)
               \/ T72(hist[i].pw) \in SetBefore(i)
+              \/ PwTwins(hist[i].pw) \cap SetBefore(i) # {}
         /\ (hist[i].a \in {"Create", "SetPw", "Delete"} /\ hist[i].fail) => i % 4 = 0
 
 Ops(D) ==
   \/ \E sp \in MutSp, pw \in Pws, sch \in Schemes, fail \in BOOLEAN : Create(sp, pw, sch, fail)
   \/ \E sp \in MutSp, pw \in Pws, fail \in BOOLEAN : SetPw(sp, pw, fail)
   \/ \E sp \in MutSp, fail \in BOOLEAN : Delete(sp, fail)
-  \/ \E mech \in Mechs, sp \in AllSp, pw \in Pws, az \in Azs : AuthOne(mech, sp, pw, az, D)
-  \/ \E sp \in AllSp, pw \in Pws : AuthPair(sp, pw, D)
+  \/ \E mech \in Mechs, sp \in SaslSp, pw \in Pws, az \in Azs : AuthOne(mech, sp, pw, az, D)
+  \/ \E sp \in SaslSp, pw \in Pws : AuthPair(sp, pw, D)
   \/ \E sp \in AllSp, pw \in Pws : AuthDirect(sp, pw, D)
-  \/ \E mech \in Mechs, sp \in AllSp, pw \in Pws : SAuth(mech, sp, pw, D)
+  \/ \E mech \in Mechs, sp \in SaslSp, pw \in Pws : SAuth(mech, sp, pw, D)
   \/ \E mf \in MailFroms : SMail(mf)
   \/ SOpen \/ SEhlo \/ SRset \/ SClose
 
